@@ -364,6 +364,20 @@ pub fn generate(cfg: &Cfg) -> Vec<String> {
             cases.push(format!("c04isa {} {} {} {} {}", k, p1, p2, join(a.iter()), join(b.iter())));
         }
     }
+    // long homopolymer stretches: whole columns of one symbol over hundreds of rows (counting, indexing and
+    // the look-ahead rows must not depend on the contents being mixed), lengths around 256 / 512 rows
+    for (alpha, k) in [("dna", 5usize), ("protein", 21usize)] {
+        for &l in &[8192usize, 8193, 8224, 16384, 16415, if cfg.thorough { 65_600 } else { 12_000 }] {
+            let a = rng.below(k);
+            let b = rng.below(k);
+            let v: Vec<usize> = match rng.below(3) {
+                0 => vec![a; l],                                                       // one symbol
+                1 => (0..l).map(|i| if (i / 600) % 2 == 0 { a } else { b }).collect(),  // long runs of two
+                _ => (0..l).map(|i| if i % 977 == 0 { rng.below(k) } else { k - 1 }).collect(), // wildcard stretch
+            };
+            cases.push(format!("c04 {} 32 S {} {} W {} G {}", alpha, backends32[rng.below(backends32.len())], format!("{} {}", l, join(v.iter())), rng.range(0, 9), rng.range(0, 12)));
+        }
+    }
     for (alpha, k) in [("dna", 5usize), ("protein", 21usize)] {
         // boundary stream: every length of the grid, fresh + reused buffer, then wraps
         for &l in &lengths(cfg.thorough) {
